@@ -34,7 +34,7 @@ ASSUMPTIONS = ["after a session passed step-level settings for an element to a s
                "the fresh-model oracle shares the DSL core with the system (its correctness is C01, not claimed)"]
 FAULT_KINDS = []
 PROBES = ["observed_together_with_sibling", "sibling_on_another_grid", "hybrid_manager", "managers_share_base_object", "points_setting", "runspec_setting", "step_level_setting", "rest_run_setting", "session_left_open",
-          "scenario_added_later", "session_with_foreign_operations", "point_edited_in_place", "session_over_two_managers", "scenario_registered_again", "run_over_two_managers", "name_known_to_one_manager_only"]
+          "scenario_added_later", "session_with_foreign_operations", "step_settings_expire_with_the_session", "sparse_observation", "rest_run_over_two_scenarios", "point_edited_in_place", "session_over_two_managers", "scenario_registered_again", "run_over_two_managers", "name_known_to_one_manager_only"]
 EXHAUSTIVE = {"quick": False, "thorough": False}
 
 VALS = [0.0, 0.5, 1.5, 2.0, 3.0, 7.0]
@@ -54,7 +54,11 @@ def gen_settings(rng, template, base, allow_runspecs=True, allow_strings=False, 
         for tb in rng.sample(T.TABLES[template], rng.randint(1, len(T.TABLES[template]))):
             pts = [[0.0, rng.choice([0.5, 1.0, 2.0])], [rng.choice([3.0, 5.0]), rng.choice([0.0, 4.0])], [20.0, rng.choice([1.0, 3.0])]]
             s["points"][tb] = str(pts) if allow_strings and rng.random() < 0.2 else pts
-    if allow_runspecs and rng.random() < 0.3:
+    if allow_runspecs and allow_runspecs != "full" and rng.random() < 0.12:
+        # a LATER setting that names only the stop time (an integer beyond every start time in use, so it is on every grid):
+        # start time and dt stay what the scenario has
+        s["runspecs"] = {"stoptime": rng.choice([6.0, 8.0, 9.0])}
+    elif allow_runspecs and rng.random() < 0.3:
         dt = rng.choice([1.0, 0.5, 0.25])
         start = base["start"] + rng.choice([0.0, 0.0, 1.0, 2.0])
         n = rng.choice([3, 4, 6])
@@ -268,6 +272,14 @@ def generate(spec):
             ops.append({"op": "rest_run", "manager": mgr, "scenario": sc,
                         "settings": {mgr: {sc: gen_settings(rng, tpl_of[mgr], base_of[mgr])}},
                         "equations": rng.sample(T.ELEMENTS[tpl_of[mgr]], rng.randint(1, 2))})
+            sibs = [s_ for (m_, s_) in keys if m_ == mgr and s_ != sc]
+            if sibs and rng.random() < 0.35:
+                # one request re-parameterises two scenarios of the manager
+                sc2 = rng.choice(sibs)
+                ops[-1]["also"] = sc2
+                ops[-1]["settings"][mgr][sc2] = gen_settings(rng, tpl_of[mgr], base_of[mgr])
+                if rng.random() < 0.5:
+                    ops[-1]["settings"][mgr] = dict(reversed(list(ops[-1]["settings"][mgr].items())))
         elif r < 0.76:
             mgr, sc = rng.choice(keys)
             ops.append({"op": "reset_cache", "manager": mgr, "scenario": sc})
@@ -295,7 +307,7 @@ def generate(spec):
         else:
             ops.append({"op": "end_session"})
             in_session = None
-    return {"property": PROPERTY, "config": cfg, "ops": ops}
+    return {"property": PROPERTY, "config": cfg, "ops": ops, "observe": rng.choice(["each", "each", "sparse"])}
 
 
 def apply_op(w, op, res):
@@ -340,15 +352,26 @@ def apply_op(w, op, res):
     elif kind == "end_session":
         b.end_session()
         touched = set(getattr(w, "session", set()))
+        for key in touched:
+            sh = w.shadow.get(key)
+            if sh is not None and sh["tainted"]:
+                # what a step changed and the scenario itself declares goes back to the declared value with the next run or
+                # session (the runner re-applies the scenario's constants and points); only what the scenario does not
+                # declare stays as the step left it
+                sh["tainted"] -= (set(sh["constants"]) | set(sh["points"]))
+                res.probe("step_settings_expire_with_the_session")
         w.session = set()
     elif kind == "rest_run":
         res.probe("rest_run_setting")
-        status, body = w.rest_run({"scenario_managers": [op["manager"]], "scenarios": [op["scenario"]], "equations": list(op["equations"]),
+        names = [op["scenario"]] + ([op["also"]] if op.get("also") else [])
+        status, body = w.rest_run({"scenario_managers": [op["manager"]], "scenarios": names, "equations": list(op["equations"]),
                                    "settings": copy.deepcopy(op["settings"])})
         if status != 200:
             res.violate("C06.rest-run-failed", {"status": status, "op": op})
         w.apply_settings_shadow(op["settings"])
-        touched = {(op["manager"], op["scenario"])}
+        touched = {(op["manager"], n_) for n_ in names}
+        if op.get("also"):
+            res.probe("rest_run_over_two_scenarios")
     elif kind == "reset_cache":
         b.reset_scenario_cache(scenario_manager=op["manager"], scenario=op["scenario"])
         touched = {(op["manager"], op["scenario"])}
@@ -441,7 +464,13 @@ def run_history(w, case, res, log, prop, twin_factory=None):
                     return False
             return True
 
-        ok = observe_all("initial", set())
+        # observing a scenario RUNS it, and a run is an operation too (it writes the scenario's settings into its model): in
+        # "sparse" histories nothing is observed before the first operation and only every third operation is followed by an
+        # observation (plus the last one)
+        sparse = case.get("observe") == "sparse"
+        if sparse:
+            res.probe("sparse_observation")
+        ok = True if sparse else observe_all("initial", set())
         n = -1
         if ok:
             for n, op in enumerate(case["ops"]):
@@ -489,7 +518,11 @@ def run_history(w, case, res, log, prop, twin_factory=None):
                                 break
                         if res.violations:
                             break
-                if res.violations or not observe_all(n, touched):
+                if res.violations:
+                    break
+                if sparse and not (n % 3 == 2 or n == len(case["ops"]) - 1):
+                    continue
+                if not observe_all(n, touched):
                     break
         if getattr(w, "session", None):
             res.probe("session_left_open")
@@ -500,6 +533,8 @@ def run_history(w, case, res, log, prop, twin_factory=None):
                 if op["op"] == "begin_session":
                     sess |= {(m, s_) for m in op["managers"] for s_ in op["scenarios"]}
 
+            needed = set()
+
             def foreign(op):
                 k = op["op"]
                 if k in ("begin_session", "run_step", "end_session"):
@@ -507,10 +542,18 @@ def run_history(w, case, res, log, prop, twin_factory=None):
                 if k == "run":
                     return not ({(m, s_) for m in op["managers"] for s_ in op["scenarios"]} & sess)
                 if k in ("rest_run", "reset_cache", "poke_point"):
-                    return (op["manager"], op["scenario"]) not in sess
+                    return (op["manager"], op["scenario"]) not in sess and (not op.get("also") or (op["manager"], op["also"]) not in sess)
                 if k == "add_scenario":
-                    return (op["manager"], op["name"]) not in sess
+                    return (op["manager"], op["name"]) not in sess and (op["manager"], op["name"]) not in needed
                 return False
+            # a scenario that an operation on the session's scenarios also names (one /run over two scenarios) has to exist in
+            # the reference as well
+            needed = set()
+            for op in case["ops"]:
+                if op["op"] in ("rest_run",) and op.get("also") and not foreign(op):
+                    needed |= {(op["manager"], op["scenario"]), (op["manager"], op["also"])}
+                if op["op"] == "run" and not foreign(op):
+                    needed |= {(m, s_) for m in op["managers"] for s_ in op["scenarios"]}
             twin_ops = [op for op in case["ops"] if not foreign(op)]
             if len(twin_ops) < len(case["ops"]):
                 res.probe("session_with_foreign_operations")
